@@ -69,6 +69,23 @@ def h(obj: Any) -> str:
     return hashlib.sha1(canon(obj).encode()).hexdigest()[:16]
 
 
+_SHARD = (0, 1)  # (shard, nshards) of the shard whose strategy is being drawn from (set by run_shard)
+
+
+def stratum(options):
+    """Stratified choice of a categorical axis (e.g. the algorithm): Hypothesis' sampled_from is clumpy for small example
+    budgets (one algorithm could get 2 of 420 cases of a run), so each shard concentrates on its own slice of `options`
+    and all shards together cover every option at every seed.  Shards beyond len(options) keep the whole list.
+    Outside a sharded run (replay, fuzzing) the whole list is returned."""
+    opts = list(options)
+    k, n = _SHARD
+    if n <= 1 or len(opts) <= 1:
+        return opts
+    if n >= len(opts):
+        return [opts[k]] if k < len(opts) else opts
+    return opts[k::n]
+
+
 def derive_seed(*parts: Any) -> int:
     d = hashlib.sha256("|".join(str(p) for p in parts).encode()).digest()
     return int.from_bytes(d[:4], "big")
@@ -233,6 +250,8 @@ def run_shard(prop: Property, obl: Obligation, tier: str, seed: int, shard: int,
     seen = set(known)
     harness_error = None
     t0 = time.time()
+    global _SHARD
+    _SHARD = (shard, nshards)
     try:
         if obl.setup is not None:
             obl.setup()
